@@ -1,4 +1,5 @@
 import RecipeGrid.Props.C01
+import RecipeGrid.Props.C03
 /-! Helper definitions and lemmas about the inlining pass of `Model/Compiler.lean` (`foldStep`, `foldAll`).
     Nothing here is a specification; the property statements live in `Props/C05.lean` and `Props/C08b.lean`. -/
 namespace RG
@@ -529,13 +530,46 @@ theorem set_flatten_erase (blocks : List Block) (d : Nat) (t1 t2 : List Tree) (a
     rw [List.set_append_right _ _ (by omega)]
     simp [hl, List.flatten_append]
 
--- ---------------------------------------------------------------- one iteration preserves the invariant
+-- ---------------------------------------------------------------- one iteration
+/-- the data of one successful inlining: the entry, its sub recipe `.sub body ns sh`, the amount of its only
+    reference, and where the definition stands (in its block and in the flattened recipe) -/
+structure FoldData where
+  o : NamedOutput
+  body : Tree
+  ns : List SVS
+  sh : Bool
+  am : Amount
+  rb : Nat
+  t1 : List Tree
+  t2 : List Tree
+  l1 : List Tree
+  l2 : List Tree
 
-theorem foldStep_inv {i : Nat} {blocks : List Block} {outs : List NamedOutput} (h : FoldInv i blocks outs) :
-    ∃ blocks' outs', foldStep i blocks outs = .ok (blocks', outs') ∧ FoldInv (i + 1) blocks' outs' ∧
-      outs'.length = outs.length ∧ blocks'.length = blocks.length := by
+/-- the replaced reference -/
+def FoldData.ref (d : FoldData) : Tree := .reference d.o.sub d.o.idx d.am
+/-- what it is replaced by -/
+def FoldData.new (d : FoldData) : Tree := if d.o.unwrap then d.body else d.o.sub
+def FoldData.blocks' (d : FoldData) (blocks : List Block) : List Block :=
+  (blocks.set d.o.defBlock (d.t1 ++ d.t2)).map (Tree.substList d.ref d.new)
+def FoldData.outs' (d : FoldData) (outs : List NamedOutput) : List NamedOutput :=
+  outs.map (NamedOutput.substitute d.ref d.new)
+
+structure FoldData.Ok (d : FoldData) (i : Nat) (blocks : List Block) (outs : List NamedOutput) : Prop where
+  ho : outs[i]? = some d.o
+  hc : d.o.canBeInlined = true
+  hnum : d.o.sub.numOutputs = 1
+  hs : d.o.sub = .sub d.body d.ns d.sh
+  hrefs : d.o.refs = [(d.ref, d.rb)]
+  hb : blocks[d.o.defBlock]? = some (d.t1 ++ d.o.sub :: d.t2)
+  hflat : blocks.flatten = d.l1 ++ d.o.sub :: d.l2
+  hflat' : (blocks.set d.o.defBlock (d.t1 ++ d.t2)).flatten = d.l1 ++ d.l2
+  hstep : foldStep i blocks outs = .ok (d.blocks' blocks, d.outs' outs)
+
+/-- an iteration either changes nothing or inlines one definition -/
+theorem foldStep_shape {i : Nat} {blocks : List Block} {outs : List NamedOutput} (h : FoldInv i blocks outs) :
+    foldStep i blocks outs = .ok (blocks, outs) ∨ ∃ d : FoldData, d.Ok i blocks outs := by
   by_cases hskip : ∀ o, outs[i]? = some o → o.canBeInlined = false
-  · exact ⟨blocks, outs, foldStep_skip i blocks outs hskip, h.next, rfl, rfl⟩
+  · exact Or.inl (foldStep_skip i blocks outs hskip)
   · have : ∃ o, outs[i]? = some o ∧ o.canBeInlined = true := by
       apply Classical.byContradiction
       intro hne
@@ -572,8 +606,19 @@ theorem foldStep_inv {i : Nat} {blocks : List Block} {outs : List NamedOutput} (
       exact Option.some.inj hq2
     subst ha
     clear hab
-    have hq : blocks.flatten[l1.length]? = some o.sub := haq
     have hrefs' : o.refs = [(Tree.reference o.sub o.idx am', rb)] := by rw [hrefs, hrefEq]
+    right
+    refine ⟨⟨o, body, ns, sh, am', rb, t1, t2, l1, l2⟩, ⟨ho, hc, hnum, hs, hrefs', hb, hflat, hflat', ?_⟩⟩
+    exact foldStep_fold i blocks outs o body ns sh _ rb [] _ _ ho hc hs hrefs' hb hrm
+
+theorem FoldData.Ok.inv {d : FoldData} {i : Nat} {blocks : List Block} {outs : List NamedOutput}
+    (hd : d.Ok i blocks outs) (h : FoldInv i blocks outs) : FoldInv (i + 1) (d.blocks' blocks) (d.outs' outs) := by
+    obtain ⟨o, body, ns, sh, am', rb, t1, t2, l1, l2⟩ := d
+    obtain ⟨ho, hc, hnum, hs, hrefs', hb, hflat, hflat', _⟩ := hd
+    simp only [FoldData.ref, FoldData.new, FoldData.blocks', FoldData.outs'] at *
+    have hom : o ∈ outs := List.mem_of_getElem? ho
+    have hshape := h.shape o hom
+    have hq : blocks.flatten[l1.length]? = some o.sub := by rw [hflat]; simp
     generalize hrefdef : Tree.reference o.sub o.idx am' = ref at hrefs'
     generalize hnewdef : (if o.unwrap then body else o.sub) = new
     have hrefR : ref.isRef = true := by rw [← hrefdef]; rfl
@@ -592,9 +637,6 @@ theorem foldStep_inv {i : Nat} {blocks : List Block} {outs : List NamedOutput} (
       · rw [hs]; intro x hx
         simp only [Tree.innerSubs, List.mem_cons] at hx
         exact hx
-    have hstep := foldStep_fold i blocks outs o body ns sh ref rb [] _ _ ho hc hs hrefs' hb hrm
-    rw [hnewdef] at hstep
-    refine ⟨_, _, hstep, ?_, by simp, by simp⟩
     have hflatNew : (List.map (Tree.substList ref new) (blocks.set o.defBlock (t1 ++ t2))).flatten =
         (l1 ++ l2).map (Tree.subst ref new) := by
       rw [← hflat', List.map_flatten]
@@ -866,6 +908,14 @@ theorem foldStep_inv {i : Nat} {blocks : List Block} {outs : List NamedOutput} (
         refine ⟨_, rfl, ?_⟩
         rw [Tree.substList_eq_map]
         exact List.mem_map_of_mem hmemk
+
+
+theorem foldStep_inv {i : Nat} {blocks : List Block} {outs : List NamedOutput} (h : FoldInv i blocks outs) :
+    ∃ blocks' outs', foldStep i blocks outs = .ok (blocks', outs') ∧ FoldInv (i + 1) blocks' outs' ∧
+      outs'.length = outs.length ∧ blocks'.length = blocks.length := by
+  rcases foldStep_shape h with hs | ⟨d, hd⟩
+  · exact ⟨blocks, outs, hs, h.next, rfl, rfl⟩
+  · exact ⟨_, _, hd.hstep, hd.inv h, by simp [FoldData.outs'], by simp [FoldData.blocks']⟩
 
 
 theorem foldAll_inv : ∀ (n i : Nat) (blocks : List Block) (outs : List NamedOutput), FoldInv i blocks outs →
@@ -1462,5 +1512,687 @@ theorem parseAll_error : ∀ (srcs : List Str) (i : Nat) (e : CompileResult), pa
         cases h
         exact parseAll_error ss (i + 1) _ hr
       | ok rest => rw [hr] at h; cases h
+
+
+-- ---------------------------------------------------------------- what is written: nodes outside embedded copies
+mutual
+/-- the ingredient and step nodes of a tree outside embedded copies, in order, each seen through `fi` (description and
+    quantity of an ingredient) or `fs` (description and number of inputs of a step) -/
+def Tree.collect {β : Type} (fi : SVS → Option Quantity → β) (fs : SVS → Nat → β) : Tree → List β
+  | .ingredient d q => [fi d q]
+  | .step d i => fs d i.length :: Tree.collectList fi fs i
+  | .reference .. => []
+  | .sub b _ _ => Tree.collect fi fs b
+def Tree.collectList {β : Type} (fi : SVS → Option Quantity → β) (fs : SVS → Nat → β) : List Tree → List β
+  | [] => []
+  | t :: ts => Tree.collect fi fs t ++ Tree.collectList fi fs ts
+end
+
+mutual
+/-- the reference nodes of a tree outside embedded copies -/
+def Tree.topRefs : Tree → List Tree
+  | .ingredient .. => []
+  | .step _ i => Tree.topRefsList i
+  | .reference s n a => [.reference s n a]
+  | .sub b _ _ => Tree.topRefs b
+def Tree.topRefsList : List Tree → List Tree
+  | [] => []
+  | t :: ts => Tree.topRefs t ++ Tree.topRefsList ts
+end
+
+theorem Tree.substList_length (old new : Tree) (ts : List Tree) : (Tree.substList old new ts).length = ts.length := by
+  rw [Tree.substList_eq_map, List.length_map]
+
+mutual
+theorem Tree.topRefs_sub_refNodes : ∀ (t n : Tree), n ∈ t.topRefs → n ∈ t.refNodes
+  | .ingredient .., n, h => by simp [Tree.topRefs] at h
+  | .step d i, n, h => by
+    simp only [Tree.topRefs] at h; simp only [Tree.refNodes]; exact Tree.topRefsList_sub_refNodes i n h
+  | .reference s j a, n, h => by
+    simp only [Tree.topRefs, List.mem_singleton] at h; simp [Tree.refNodes, h]
+  | .sub b ns sh, n, h => by
+    simp only [Tree.topRefs] at h; simp only [Tree.refNodes]; exact Tree.topRefs_sub_refNodes b n h
+theorem Tree.topRefsList_sub_refNodes : ∀ (ts : List Tree) (n : Tree), n ∈ Tree.topRefsList ts → n ∈ Tree.refNodesList ts
+  | [], n, h => by simp [Tree.topRefsList] at h
+  | t :: ts, n, h => by
+    simp only [Tree.topRefsList, List.mem_append] at h
+    simp only [Tree.refNodesList, List.mem_append]
+    exact h.imp (Tree.topRefs_sub_refNodes t n) (Tree.topRefsList_sub_refNodes ts n)
+end
+
+/-- how often the replaced node occurs outside copies -/
+def Tree.occ (old t : Tree) : Nat := (t.topRefs).countP (fun n => Tree.beq n old)
+def Tree.occList (old : Tree) (ts : List Tree) : Nat := (Tree.topRefsList ts).countP (fun n => Tree.beq n old)
+
+mutual
+/-- substitution keeps every written node and adds those of the inserted tree once per replaced reference -/
+theorem Tree.collect_subst {β : Type} (fi : SVS → Option Quantity → β) (fs : SVS → Nat → β) (old new : Tree)
+    (hr : old.isRef = true) (p : β → Bool) : ∀ t : Tree,
+    (Tree.collect fi fs (Tree.subst old new t)).countP p =
+      (Tree.collect fi fs t).countP p + Tree.occ old t * (Tree.collect fi fs new).countP p
+  | .ingredient d q => by
+    have : Tree.beq (.ingredient d q) old = false := by cases old <;> simp [Tree.isRef] at hr; simp [Tree.beq]
+    simp [Tree.subst, this, Tree.occ, Tree.topRefs]
+  | .step d i => by
+    have : Tree.beq (.step d i) old = false := by cases old <;> simp [Tree.isRef] at hr; simp [Tree.beq]
+    have ih := Tree.collectList_subst fi fs old new hr p i
+    simp only [Tree.subst, this, Bool.false_eq_true, if_false, Tree.collect, Tree.substList_length, List.countP_cons,
+      ih, Tree.occ, Tree.topRefs, Tree.occList]
+    omega
+  | .reference s j a => by
+    simp only [Tree.subst, Tree.occ, Tree.topRefs, List.countP_cons, List.countP_nil]
+    cases hb : Tree.beq (.reference s j a) old <;> simp [Tree.collect]
+  | .sub b ns sh => by
+    rw [Tree.subst_sub _ _ _ _ _ hr]
+    simpa [Tree.collect, Tree.occ, Tree.topRefs] using Tree.collect_subst fi fs old new hr p b
+theorem Tree.collectList_subst {β : Type} (fi : SVS → Option Quantity → β) (fs : SVS → Nat → β) (old new : Tree)
+    (hr : old.isRef = true) (p : β → Bool) : ∀ ts : List Tree,
+    (Tree.collectList fi fs (Tree.substList old new ts)).countP p =
+      (Tree.collectList fi fs ts).countP p + Tree.occList old ts * (Tree.collect fi fs new).countP p
+  | [] => by simp [Tree.substList, Tree.collectList, Tree.occList, Tree.topRefsList]
+  | t :: ts => by
+    have h1 := Tree.collect_subst fi fs old new hr p t
+    have h2 := Tree.collectList_subst fi fs old new hr p ts
+    simp only [Tree.substList, Tree.collectList, List.countP_append, h1, h2, Tree.occList, Tree.topRefsList, Tree.occ,
+      Nat.add_mul]
+    omega
+end
+
+mutual
+/-- the same for the references outside copies, counted by a predicate that substitution does not change and that
+    rejects the replaced reference -/
+theorem Tree.topRefs_subst (old new : Tree) (hr : old.isRef = true) (q : Tree → Bool) : ∀ t : Tree,
+    (∀ s j a, Tree.reference s j a ∈ t.topRefs →
+      (Tree.beq (.reference s j a) old = true → q (.reference s j a) = false) ∧
+      q (.reference (Tree.subst old new s) j a) = q (.reference s j a)) →
+    (Tree.subst old new t).topRefs.countP q = t.topRefs.countP q + Tree.occ old t * new.topRefs.countP q
+  | .ingredient d q', _ => by
+    have : Tree.beq (.ingredient d q') old = false := by cases old <;> simp [Tree.isRef] at hr; simp [Tree.beq]
+    simp [Tree.subst, this, Tree.occ, Tree.topRefs]
+  | .step d i, h => by
+    have : Tree.beq (.step d i) old = false := by cases old <;> simp [Tree.isRef] at hr; simp [Tree.beq]
+    have ih := Tree.topRefsList_subst old new hr q i (by simpa [Tree.topRefs] using h)
+    simp only [Tree.subst, this, Bool.false_eq_true, if_false, Tree.topRefs, ih, Tree.occ, Tree.occList]
+  | .reference s j a, h => by
+    simp only [Tree.subst, Tree.occ, Tree.topRefs, List.countP_cons, List.countP_nil]
+    cases hb : Tree.beq (.reference s j a) old with
+    | true => simp [(h s j a (by simp [Tree.topRefs])).1 hb]
+    | false => simp [Tree.topRefs, (h s j a (by simp [Tree.topRefs])).2]
+  | .sub b ns sh, h => by
+    rw [Tree.subst_sub _ _ _ _ _ hr]
+    simpa [Tree.topRefs, Tree.occ] using Tree.topRefs_subst old new hr q b (by simpa [Tree.topRefs] using h)
+theorem Tree.topRefsList_subst (old new : Tree) (hr : old.isRef = true) (q : Tree → Bool) : ∀ ts : List Tree,
+    (∀ s j a, Tree.reference s j a ∈ Tree.topRefsList ts →
+      (Tree.beq (.reference s j a) old = true → q (.reference s j a) = false) ∧
+      q (.reference (Tree.subst old new s) j a) = q (.reference s j a)) →
+    (Tree.topRefsList (Tree.substList old new ts)).countP q =
+      (Tree.topRefsList ts).countP q + Tree.occList old ts * new.topRefs.countP q
+  | [], _ => by simp [Tree.substList, Tree.topRefsList, Tree.occList]
+  | t :: ts, h => by
+    have h1 := Tree.topRefs_subst old new hr q t (fun s j a hm => h s j a (by simp [Tree.topRefsList, hm]))
+    have h2 := Tree.topRefsList_subst old new hr q ts (fun s j a hm => h s j a (by simp [Tree.topRefsList, hm]))
+    simp only [Tree.substList, Tree.topRefsList, List.countP_append, h1, h2, Tree.occList, Tree.occ, Nat.add_mul]
+    omega
+end
+
+/-- the same over a list of roots -/
+theorem collect_subst_flat {β : Type} (fi : SVS → Option Quantity → β) (fs : SVS → Nat → β) (old new : Tree)
+    (hr : old.isRef = true) (p : β → Bool) : ∀ L : List Tree,
+    ((L.map (Tree.subst old new)).flatMap (Tree.collect fi fs)).countP p =
+      (L.flatMap (Tree.collect fi fs)).countP p +
+        (L.flatMap Tree.topRefs).countP (fun n => Tree.beq n old) * (Tree.collect fi fs new).countP p
+  | [] => by simp
+  | T :: L => by
+    have h1 := Tree.collect_subst fi fs old new hr p T
+    have h2 := collect_subst_flat fi fs old new hr p L
+    simp only [List.map_cons, List.flatMap_cons, List.countP_append, h1, h2, Tree.occ, Nat.add_mul]
+    omega
+
+theorem topRefs_subst_flat (old new : Tree) (hr : old.isRef = true) (q : Tree → Bool) : ∀ L : List Tree,
+    (∀ T ∈ L, ∀ s j a, Tree.reference s j a ∈ T.topRefs →
+      (Tree.beq (.reference s j a) old = true → q (.reference s j a) = false) ∧
+      q (.reference (Tree.subst old new s) j a) = q (.reference s j a)) →
+    ((L.map (Tree.subst old new)).flatMap Tree.topRefs).countP q =
+      (L.flatMap Tree.topRefs).countP q +
+        (L.flatMap Tree.topRefs).countP (fun n => Tree.beq n old) * new.topRefs.countP q
+  | [], _ => by simp
+  | T :: L, h => by
+    have h1 := Tree.topRefs_subst old new hr q T (h T (by simp))
+    have h2 := topRefs_subst_flat old new hr q L (fun T' hT' => h T' (by simp [hT']))
+    simp only [List.map_cons, List.flatMap_cons, List.countP_append, h1, h2, Tree.occ, Nat.add_mul]
+    omega
+
+/-- a reference to output `idx` of the sub recipe with names `names` -/
+def pointsTo (names : List SVS) (idx : Nat) : Tree → Bool
+  | .reference s j _ => s.subNames == names && j == idx
+  | _ => false
+
+/-- every recorded reference of a not yet visited entry stands exactly once in the recipe outside copies -/
+def RefCount (i : Nat) (blocks : List Block) (outs : List NamedOutput) : Prop :=
+  ∀ (k : Nat) (o : NamedOutput), i ≤ k → outs[k]? = some o →
+    (blocks.flatten.flatMap Tree.topRefs).countP (pointsTo o.sub.subNames o.idx) = o.refs.length
+
+
+
+namespace FoldData.Ok
+variable {d : FoldData} {i : Nat} {blocks : List Block} {outs : List NamedOutput}
+
+theorem refIsRef : d.ref.isRef = true := rfl
+
+theorem size_lt : d.o.sub.size < d.ref.size := by
+  simp only [FoldData.ref, Tree.size]; omega
+
+theorem flatNew (hd : d.Ok i blocks outs) :
+    (d.blocks' blocks).flatten = (d.l1 ++ d.l2).map (Tree.subst d.ref d.new) := by
+  unfold FoldData.blocks'
+  rw [← hd.hflat', List.map_flatten]
+  congr 1
+  apply List.map_congr_left
+  intro b _
+  exact Tree.substList_eq_map d.ref d.new b
+
+theorem mem_flat (hd : d.Ok i blocks outs) {T : Tree} (hT : T ∈ d.l1 ++ d.l2) : T ∈ blocks.flatten := by
+  rw [hd.hflat]; simp only [List.mem_append, List.mem_cons] at hT ⊢
+  rcases hT with hT | hT
+  · exact Or.inl hT
+  · exact Or.inr (Or.inr hT)
+
+theorem sub_mem_flat (hd : d.Ok i blocks outs) : d.o.sub ∈ blocks.flatten := by
+  rw [hd.hflat]; simp
+
+/-- a reference node outside copies is a recorded reference -/
+theorem topRef_recorded (h : FoldInv i blocks outs) {n : Tree} (hn : n ∈ blocks.flatten.flatMap Tree.topRefs) :
+    ∃ (k : Nat) (ok : NamedOutput) (a : Amount) (b : Nat), outs[k]? = some ok ∧ (n, b) ∈ ok.refs ∧
+      n = Tree.reference ok.sub ok.idx a ∧ ok.sub.isSub = true := by
+  obtain ⟨T, hT, hnT⟩ := List.mem_flatMap.mp hn
+  obtain ⟨ok, hok, p, hp, hpe⟩ := h.nodes T hT n (Tree.topRefs_sub_refNodes T n hnT)
+  obtain ⟨k, hk⟩ := List.mem_iff_getElem?.mp hok
+  obtain ⟨a, ha⟩ := h.refsShape ok hok p hp
+  refine ⟨k, ok, a, p.2, hk, ?_, by rw [← hpe, ha], h.shape ok hok⟩
+  rw [← hpe]; exact hp
+
+/-- a recorded reference that points to the folded entry is its only reference -/
+theorem points_iff (hd : d.Ok i blocks outs) (h : FoldInv i blocks outs) {n : Tree}
+    (hn : n ∈ blocks.flatten.flatMap Tree.topRefs) :
+    (Tree.beq n d.ref = pointsTo d.o.sub.subNames d.o.idx n) ∧ (Tree.beq n d.ref = true → n = d.ref) := by
+  obtain ⟨k, ok, a, b, hk, hmem, hne, _⟩ := topRef_recorded h hn
+  by_cases hki : k = i
+  · subst hki
+    rw [hd.ho] at hk; cases hk
+    rw [hd.hrefs] at hmem
+    simp only [List.mem_singleton, Prod.mk.injEq] at hmem
+    rw [hmem.1]
+    refine ⟨?_, fun _ => rfl⟩
+    rw [Tree.beq_refl]
+    simp [FoldData.ref, pointsTo]
+  · have hdist := h.distinct i k d.o ok hd.ho hk (Ne.symm hki) hd.hnum
+    have h1 : Tree.beq n d.ref = false := by
+      cases hb : Tree.beq n d.ref with
+      | false => rfl
+      | true =>
+        rw [hne] at hb
+        have := Tree.beq_subNames (Tree.beq_ref_target hb)
+        rw [hdist.2] at this; cases this
+    refine ⟨?_, fun hb => by rw [h1] at hb; cases hb⟩
+    rw [h1, hne]
+    simp [pointsTo, hdist.2]
+
+/-- the replaced reference stands exactly once outside copies, and not in the removed definition -/
+theorem occ_one (hd : d.Ok i blocks outs) (h : FoldInv i blocks outs) (hc : RefCount i blocks outs) :
+    ((d.l1 ++ d.l2).flatMap Tree.topRefs).countP (fun n => Tree.beq n d.ref) = 1 := by
+  have h1 : (blocks.flatten.flatMap Tree.topRefs).countP (fun n => Tree.beq n d.ref) = 1 := by
+    have := hc i d.o (Nat.le_refl _) hd.ho
+    rw [hd.hrefs] at this
+    simp only [List.length_singleton] at this
+    rw [← this]
+    apply List.countP_congr
+    intro n hn
+    rw [(points_iff hd h hn).1]
+  have h2 : d.o.sub.topRefs.countP (fun n => Tree.beq n d.ref) = 0 := by
+    rw [List.countP_eq_zero]
+    intro n hn hb
+    have h3 := Tree.refNodes_size _ _ (Tree.topRefs_sub_refNodes _ _ hn)
+    have h4 := Tree.beq_size _ _ hb
+    have := size_lt (d := d)
+    omega
+  rw [hd.hflat] at h1
+  simp only [List.flatMap_append, List.flatMap_cons, List.countP_append, h2] at h1 ⊢
+  omega
+
+theorem new_collect {β : Type} (fi : SVS → Option Quantity → β) (fs : SVS → Nat → β) (hd : d.Ok i blocks outs) :
+    Tree.collect fi fs d.new = Tree.collect fi fs d.o.sub := by
+  unfold FoldData.new; split
+  · rw [hd.hs]; rfl
+  · rfl
+
+theorem new_topRefs (hd : d.Ok i blocks outs) : d.new.topRefs = d.o.sub.topRefs := by
+  unfold FoldData.new; split
+  · rw [hd.hs]; rfl
+  · rfl
+
+/-- **conservation**: one inlining keeps every written node, exactly once -/
+theorem collect_count {β : Type} (fi : SVS → Option Quantity → β) (fs : SVS → Nat → β) (hd : d.Ok i blocks outs)
+    (h : FoldInv i blocks outs) (hc : RefCount i blocks outs) (p : β → Bool) :
+    ((d.blocks' blocks).flatten.flatMap (Tree.collect fi fs)).countP p = (blocks.flatten.flatMap (Tree.collect fi fs)).countP p := by
+  rw [flatNew hd, collect_subst_flat fi fs d.ref d.new rfl p, occ_one hd h hc, new_collect fi fs hd, hd.hflat]
+  simp only [List.flatMap_append, List.flatMap_cons, List.countP_append]
+  omega
+
+theorem refCount (hd : d.Ok i blocks outs) (h : FoldInv i blocks outs) (hc : RefCount i blocks outs) :
+    RefCount (i + 1) (d.blocks' blocks) (d.outs' outs) := by
+  intro k ok' hk hok'
+  unfold FoldData.outs' at hok'
+  rw [List.getElem?_map] at hok'
+  cases hok : outs[k]? with
+  | none => rw [hok] at hok'; cases hok'
+  | some ok =>
+    rw [hok] at hok'
+    simp only [Option.map_some, Option.some.injEq] at hok'
+    subst hok'
+    have hokm : ok ∈ outs := List.mem_of_getElem? hok
+    have hnames : (NamedOutput.substitute d.ref d.new ok).sub.subNames = ok.sub.subNames :=
+      Tree.subNames_subst d.ref d.new ok.sub rfl (h.shape ok hokm)
+    have hidx : (NamedOutput.substitute d.ref d.new ok).idx = ok.idx := rfl
+    have hlen : (NamedOutput.substitute d.ref d.new ok).refs.length = ok.refs.length := by
+      simp [NamedOutput.substitute]
+    rw [hnames, hidx, hlen, ← hc k ok (by omega) hok]
+    have hdist := h.distinct i k d.o ok hd.ho hok (by omega) hd.hnum
+    rw [flatNew hd, topRefs_subst_flat d.ref d.new rfl _ (d.l1 ++ d.l2), occ_one hd h hc, new_topRefs hd, hd.hflat]
+    · simp only [List.flatMap_append, List.flatMap_cons, List.countP_append]
+      omega
+    · intro T hT s j a hn
+      have hnf : Tree.reference s j a ∈ blocks.flatten.flatMap Tree.topRefs :=
+        List.mem_flatMap.mpr ⟨T, mem_flat hd hT, hn⟩
+      constructor
+      · intro hb
+        rw [(points_iff hd h hnf).2 hb]
+        simp [FoldData.ref, pointsTo, hdist.1]
+      · obtain ⟨_, oe, _, _, _, _, hne, hsub⟩ := topRef_recorded h hnf
+        have hs : s = oe.sub := by injection hne
+        simp only [pointsTo]
+        rw [Tree.subNames_subst d.ref d.new s rfl (by rw [hs]; exact hsub)]
+
+end FoldData.Ok
+
+
+
+mutual
+theorem topRefs_embedTree (roots : List Tree) : ∀ nt : NTree,
+    (embedTree roots nt).topRefs = nt.refs.map (fun r => Tree.reference (roots[r.1]?.getD default) r.2.1 r.2.2)
+  | .ingredient .. => rfl
+  | .step d inputs => by simp only [embedTree, Tree.topRefs, NTree.refs]; exact topRefs_embedTrees roots inputs
+  | .nref .. => rfl
+theorem topRefs_embedTrees (roots : List Tree) : ∀ nts : List NTree,
+    Tree.topRefsList (embedTrees roots nts) =
+      (NTree.refsList nts).map (fun r => Tree.reference (roots[r.1]?.getD default) r.2.1 r.2.2)
+  | [] => rfl
+  | t :: ts => by
+    simp [embedTrees, Tree.topRefsList, NTree.refsList, topRefs_embedTree roots t, topRefs_embedTrees roots ts]
+end
+
+theorem topRefs_embedStmt (roots : List Tree) (s : NStmt) :
+    (embedStmt roots s).topRefs = (embedTree roots s.tree).topRefs := by
+  unfold embedStmt; split <;> rfl
+
+/-- every reference of the program points to a defined name of an earlier statement -/
+theorem allRefs_defined (asts : List (List AStmt)) (ns : List NStmt) (h : Spec.blocks asts = .ok ns) :
+    ∀ r ∈ allRefs ns, ∃ key, (key, r.1, r.2.1) ∈ definedNames ns := by
+  intro r hr
+  simp only [allRefs, List.mem_flatMap, List.mem_map] at hr
+  obtain ⟨s, hs, x, hx, rfl⟩ := hr
+  obtain ⟨k, hk⟩ := List.mem_iff_getElem?.mp hs
+  obtain ⟨key, hdef⟩ := (spec_stmt_facts asts ns h k s hk).2 x hx
+  exact ⟨key, (definedNames_take hdef).1⟩
+
+/-- the references outside copies of the elaborated roots are the references of the program, in order -/
+theorem topRefs_rootsOf (asts : List (List AStmt)) (ns : List NStmt) (h : Spec.blocks asts = .ok ns) :
+    ∀ k, k ≤ ns.length → (rootsOf (ns.take k)).flatMap Tree.topRefs =
+      (allRefs (ns.take k)).map (fun r => Tree.reference ((rootsOf ns)[r.1]?.getD default) r.2.1 r.2.2.1)
+  | 0, _ => by simp [rootsOf, allRefs]
+  | k + 1, hk => by
+    have ih := topRefs_rootsOf asts ns h k (by omega)
+    have hlt : k < ns.length := by omega
+    have hs : ns[k]? = some ns[k] := List.getElem?_eq_getElem hlt
+    have htake : ns.take (k + 1) = ns.take k ++ [ns[k]] := by
+      rw [List.take_add_one, hs]; rfl
+    rw [htake, rootsOf_snoc, allRefs_snoc, List.flatMap_append, List.map_append, ih]
+    congr 1
+    simp only [List.flatMap_cons, List.flatMap_nil, List.append_nil, topRefs_embedStmt, topRefs_embedTree,
+      List.map_map]
+    apply List.map_congr_left
+    intro x hx
+    obtain ⟨key, hdef⟩ := (spec_stmt_facts asts ns h k _ hs).2 x hx
+    have hxk := (definedNames_take hdef).2
+    simp only at hxk
+    simp only [Function.comp]
+    rw [rootsOf_take_getElem ns k x.1 hxk (by omega)]
+
+theorem refCount_init (asts : List (List AStmt)) (bs : List Block) (st : CState)
+    (h : compileBlocks 0 {} asts = .ok (bs, st)) : RefCount 0 bs st.outputs := by
+  obtain ⟨ns, hs, hbs⟩ := (elab_ok_iff asts bs).mp ⟨st, h⟩
+  obtain ⟨_, hflat⟩ := elab_table asts bs st h ns hs
+  have hU := spec_keys_unique asts ns hs
+  intro k o _ ho
+  obtain ⟨key, sid, s, b, hd, hsid, hroot, hsubeq, hname, _, hrefs⟩ := elab_entry asts bs st h ns hs k o ho
+  have htop := topRefs_rootsOf asts ns hs ns.length (Nat.le_refl _)
+  rw [List.take_length] at htop
+  rw [← hflat, htop, hrefs, List.length_map, ← List.countP_eq_length_filter, List.countP_map]
+  apply List.countP_congr
+  intro r hr
+  obtain ⟨key', hdef⟩ := allRefs_defined asts ns hs r hr
+  obtain ⟨s', b', hs', hr', hn'⟩ := root_of_defined ns _ hdef
+  simp only at hs' hr' hn'
+  have hne : s'.names ≠ [] := by intro hnil; rw [hnil] at hn'; simp at hn'
+  simp only [Function.comp, hr', Option.getD_some, pointsTo, hsubeq, Tree.subNames]
+  by_cases he : r.1 = sid
+  · rw [he, hsid] at hs'
+    cases hs'
+    simp [he]
+  · have : (s'.names == s.names) = false := by
+      cases hx : (s'.names == s.names) with
+      | false => rfl
+      | true => exact absurd (same_stmt_of_names ns hU r.1 sid s' s hs' hsid hne (Or.inl hx)) he
+    simp [this, he]
+
+
+
+-- ---------------------------------------------------------------- expansion and the history of the roots
+mutual
+/-- the pure step/ingredient tree a recipe tree stands for: every reference is replaced by the expansion of its
+    embedded copy, sub recipe wrappers and amounts are dropped -/
+def Tree.expandH : Tree → Tree
+  | .ingredient d q => .ingredient d q
+  | .step d i => .step d (Tree.expandHList i)
+  | .reference s _ _ => Tree.expandH s
+  | .sub b _ _ => Tree.expandH b
+def Tree.expandHList : List Tree → List Tree
+  | [] => []
+  | t :: ts => Tree.expandH t :: Tree.expandHList ts
+end
+
+mutual
+/-- substituting a tree with the same expansion for a reference keeps the expansion, provided the nodes `==` to the
+    reference are the reference itself -/
+theorem Tree.expandH_subst (old new : Tree) (hr : old.isRef = true) (he : old.expandH = new.expandH) : ∀ t : Tree,
+    (∀ n ∈ t.refNodes, Tree.beq n old = true → n = old) → (Tree.subst old new t).expandH = t.expandH
+  | .ingredient d q, _ => by
+    have : Tree.beq (.ingredient d q) old = false := by cases old <;> simp [Tree.isRef] at hr; simp [Tree.beq]
+    simp [Tree.subst, this]
+  | .step d i, h => by
+    have : Tree.beq (.step d i) old = false := by cases old <;> simp [Tree.isRef] at hr; simp [Tree.beq]
+    simp only [Tree.subst, this, Bool.false_eq_true, if_false, Tree.expandH]
+    rw [Tree.expandHList_subst old new hr he i (by simpa [Tree.refNodes] using h)]
+  | .reference s j a, h => by
+    simp only [Tree.subst]
+    cases hb : Tree.beq (.reference s j a) old with
+    | true =>
+      simp only [if_true]
+      rw [← he, ← h _ (by simp [Tree.refNodes]) hb]
+    | false =>
+      simp only [Bool.false_eq_true, if_false, Tree.expandH]
+      exact Tree.expandH_subst old new hr he s (fun n hn => h n (by simp [Tree.refNodes, hn]))
+  | .sub b ns sh, h => by
+    rw [Tree.subst_sub _ _ _ _ _ hr]
+    simp only [Tree.expandH]
+    exact Tree.expandH_subst old new hr he b (by simpa [Tree.refNodes] using h)
+theorem Tree.expandHList_subst (old new : Tree) (hr : old.isRef = true) (he : old.expandH = new.expandH) :
+    ∀ ts : List Tree, (∀ n ∈ Tree.refNodesList ts, Tree.beq n old = true → n = old) →
+    Tree.expandHList (Tree.substList old new ts) = Tree.expandHList ts
+  | [], _ => rfl
+  | t :: ts, h => by
+    simp only [Tree.substList, Tree.expandHList]
+    rw [Tree.expandH_subst old new hr he t (fun n hn => h n (by simp [Tree.refNodesList, hn])),
+      Tree.expandHList_subst old new hr he ts (fun n hn => h n (by simp [Tree.refNodesList, hn]))]
+end
+
+/-- a composition of inlining substitutions: each replaces a reference to a sub recipe by that sub recipe or by its
+    body -/
+inductive InlineChainH : (Tree → Tree) → Prop
+  | nil : InlineChainH id
+  | step {σ : Tree → Tree} (body : Tree) (ns : List SVS) (sh : Bool) (idx : Nat) (a : Amount) (unwrap : Bool) :
+      InlineChainH σ →
+      InlineChainH (fun t => Tree.subst (.reference (.sub body ns sh) idx a)
+        (if unwrap then body else .sub body ns sh) (σ t))
+
+/-- the roots of `bs'` descend from those of `bs`: block by block a sublist (same order), each root rewritten by the
+    same composition of inlining substitutions, with the same expansion -/
+def DescendsH (bs bs' : List Block) : Prop :=
+  ∃ σ, InlineChainH σ ∧ bs'.length = bs.length ∧
+    ∀ (b : Nat) (ts' : List Tree), bs'[b]? = some ts' →
+      ∃ ts kept, bs[b]? = some ts ∧ List.Sublist kept ts ∧ ts' = kept.map σ ∧
+        ∀ t ∈ kept, (σ t).expandH = t.expandH
+
+theorem DescendsH.refl (bs : List Block) : DescendsH bs bs :=
+  ⟨id, .nil, rfl, fun _ ts' h => ⟨ts', ts', h, List.Sublist.refl _, by simp, fun _ _ => rfl⟩⟩
+
+namespace FoldData.Ok
+variable {d : FoldData} {i : Nat} {blocks : List Block} {outs : List NamedOutput}
+
+/-- a reference node of the recipe `==` to the replaced one is the replaced one -/
+theorem node_eq_ref (hd : d.Ok i blocks outs) (h : FoldInv i blocks outs) {T n : Tree} (hT : T ∈ blocks.flatten)
+    (hn : n ∈ T.refNodes) (hb : Tree.beq n d.ref = true) : n = d.ref := by
+  obtain ⟨ok, hok, p, hp, hpe⟩ := h.nodes T hT n hn
+  obtain ⟨k, hk⟩ := List.mem_iff_getElem?.mp hok
+  obtain ⟨a, ha⟩ := h.refsShape ok hok p hp
+  by_cases hki : k = i
+  · subst hki
+    rw [hd.ho] at hk; cases hk
+    rw [hd.hrefs] at hp
+    simp only [List.mem_singleton] at hp
+    rw [← hpe, hp]
+  · exfalso
+    have hdist := h.distinct i k d.o ok hd.ho hk (Ne.symm hki) hd.hnum
+    rw [← hpe, ha] at hb
+    have := Tree.beq_subNames (Tree.beq_ref_target hb)
+    rw [hdist.2] at this; cases this
+
+theorem expand_eq (hd : d.Ok i blocks outs) (h : FoldInv i blocks outs) {T : Tree} (hT : T ∈ blocks.flatten) :
+    (Tree.subst d.ref d.new T).expandH = T.expandH := by
+  apply Tree.expandH_subst d.ref d.new rfl
+  · unfold FoldData.new; split
+    · simp only [FoldData.ref, Tree.expandH]; rw [hd.hs]; rfl
+    · rfl
+  · exact fun n hn hb => node_eq_ref hd h hT hn hb
+
+theorem descends (hd : d.Ok i blocks outs) (h : FoldInv i blocks outs) {bs0 : List Block}
+    (h0 : DescendsH bs0 blocks) : DescendsH bs0 (d.blocks' blocks) := by
+  obtain ⟨σ, hσ, hl, hrel⟩ := h0
+  refine ⟨fun t => Tree.subst d.ref d.new (σ t), ?_, by simp [FoldData.blocks', hl], ?_⟩
+  · have := InlineChainH.step d.body d.ns d.sh d.o.idx d.am d.o.unwrap hσ
+    simp only [FoldData.ref, FoldData.new, hd.hs]
+    exact this
+  · intro b ts' hts'
+    unfold FoldData.blocks' at hts'
+    rw [List.getElem?_map] at hts'
+    cases hx : (blocks.set d.o.defBlock (d.t1 ++ d.t2))[b]? with
+    | none => rw [hx] at hts'; cases hts'
+    | some x =>
+      rw [hx] at hts'
+      simp only [Option.map_some, Option.some.injEq] at hts'
+      -- `x` is a sublist of the block it comes from
+      have hsub : ∃ ts1, blocks[b]? = some ts1 ∧ List.Sublist x ts1 := by
+        rw [List.getElem?_set] at hx
+        split at hx
+        · rename_i hdb
+          split at hx
+          · cases hx
+            rw [← hdb]
+            exact ⟨_, hd.hb, List.Sublist.append (List.Sublist.refl _) (List.sublist_cons_self _ _)⟩
+          · cases hx
+        · exact ⟨x, hx, List.Sublist.refl _⟩
+      obtain ⟨ts1, hts1, hsub1⟩ := hsub
+      obtain ⟨ts, kept1, hts, hk1, he1, hexp1⟩ := hrel b ts1 hts1
+      rw [he1, List.sublist_map_iff] at hsub1
+      obtain ⟨kept2, hk2, hx2⟩ := hsub1
+      refine ⟨ts, kept2, hts, hk2.trans hk1, ?_, ?_⟩
+      · rw [← hts', hx2, Tree.substList_eq_map, List.map_map]; rfl
+      · intro t ht
+        have hmem : σ t ∈ blocks.flatten := by
+          apply List.mem_flatten.mpr
+          refine ⟨ts1, List.mem_of_getElem? hts1, ?_⟩
+          rw [he1]
+          exact List.mem_map_of_mem (hk2.subset ht)
+        rw [expand_eq hd h hmem]
+        exact hexp1 t (hk2.subset ht)
+
+end FoldData.Ok
+
+theorem RefCount.next {i : Nat} {blocks : List Block} {outs : List NamedOutput} (h : RefCount i blocks outs) :
+    RefCount (i + 1) blocks outs := fun k o hk => h k o (by omega)
+
+/-- everything the loop keeps, from any state satisfying the invariants -/
+theorem foldAll_inv2 : ∀ (n i : Nat) (blocks : List Block) (outs : List NamedOutput),
+    FoldInv i blocks outs → RefCount i blocks outs →
+    ∃ blocks' outs', foldAll n i blocks outs = .ok (blocks', outs') ∧ FoldInv (i + n) blocks' outs' ∧
+      RefCount (i + n) blocks' outs' ∧
+      (∀ {β : Type} (fi : SVS → Option Quantity → β) (fs : SVS → Nat → β) (p : β → Bool),
+        (blocks'.flatten.flatMap (Tree.collect fi fs)).countP p = (blocks.flatten.flatMap (Tree.collect fi fs)).countP p) ∧
+      (∀ bs0, DescendsH bs0 blocks → DescendsH bs0 blocks')
+  | 0, i, blocks, outs, h, hc => ⟨blocks, outs, rfl, h, hc, fun _ _ _ => rfl, fun _ h0 => h0⟩
+  | n + 1, i, blocks, outs, h, hc => by
+    have hi : i + (n + 1) = i + 1 + n := by omega
+    rcases foldStep_shape h with hs | ⟨d, hd⟩
+    · obtain ⟨b2, o2, hs2, h2, hc2, hw2, hd2⟩ := foldAll_inv2 n (i + 1) blocks outs h.next hc.next
+      refine ⟨b2, o2, ?_, by rw [hi]; exact h2, by rw [hi]; exact hc2, hw2, hd2⟩
+      simp only [foldAll, hs]; exact hs2
+    · obtain ⟨b2, o2, hs2, h2, hc2, hw2, hd2⟩ :=
+        foldAll_inv2 n (i + 1) _ _ (hd.inv h) (hd.refCount h hc)
+      refine ⟨b2, o2, ?_, by rw [hi]; exact h2, by rw [hi]; exact hc2, ?_, ?_⟩
+      · simp only [foldAll, hd.hstep]; exact hs2
+      · intro β fi fs p; rw [hw2 fi fs p, hd.collect_count fi fs h hc p]
+      · intro bs0 h0; exact hd2 bs0 (hd.descends h h0)
+
+
+
+-- ---------------------------------------------------------------- sublists as order-preserving injections
+theorem sublist_index_map {α : Type} {l1 l2 : List α} (h : l1.Sublist l2) :
+    ∃ f : Nat → Nat, (∀ i j, i < j → j < l1.length → f i < f j) ∧ ∀ j, j < l1.length → l2[f j]? = l1[j]? := by
+  induction h with
+  | slnil => exact ⟨id, fun _ _ h _ => h, fun _ h => by simp at h⟩
+  | cons a _ ih =>
+    obtain ⟨f, hm, hg⟩ := ih
+    exact ⟨fun j => f j + 1, fun i j hij hj => Nat.succ_lt_succ (hm i j hij hj), fun j hj => by simpa using hg j hj⟩
+  | cons_cons a _ ih =>
+    obtain ⟨f, hm, hg⟩ := ih
+    refine ⟨fun j => match j with | 0 => 0 | j + 1 => f j + 1, ?_, ?_⟩
+    · intro i j hij hj
+      cases j with
+      | zero => omega
+      | succ j =>
+        cases i with
+        | zero => simp
+        | succ i =>
+          simp only [List.length_cons] at hj
+          exact Nat.succ_lt_succ (hm i j (by omega) (by omega))
+    · intro j hj
+      cases j with
+      | zero => simp
+      | succ j =>
+        simp only [List.length_cons] at hj
+        simpa using hg j (by omega)
+
+-- ---------------------------------------------------------------- `compile` in terms of its three phases
+theorem elabBlocks_ok {srcs : List Str} {bs : List Block} {st : CState} (h : elabBlocks srcs = .ok (bs, st)) :
+    ∃ asts, parseAll 0 srcs = .ok asts ∧ compileBlocks 0 {} asts = .ok (bs, st) := by
+  unfold elabBlocks at h
+  cases hp : parseAll 0 srcs with
+  | error e => rw [hp] at h; cases h
+  | ok asts => rw [hp] at h; exact ⟨asts, rfl, h⟩
+
+theorem compile_of_elab {srcs : List Str} {bs : List Block} {st : CState} (h : elabBlocks srcs = .ok (bs, st)) :
+    compile srcs =
+      match foldAll st.outputs.length 0 bs st.outputs with
+      | .error why => .internal why
+      | .ok (blocks, _) => if checkBlocks [] blocks then .ok blocks else .internal "ReferenceToInvalidSubRecipeError" := by
+  unfold compile
+  rw [h]
+  rfl
+
+/-- an accepted description: `compile` returns what the inlining loop leaves -/
+theorem compile_ok_fold {srcs : List Str} {bs bs' : List Block} {st : CState} (h : elabBlocks srcs = .ok (bs, st))
+    (hc : compile srcs = .ok bs') : ∃ outs', foldAll st.outputs.length 0 bs st.outputs = .ok (bs', outs') := by
+  rw [compile_of_elab h] at hc
+  cases hf : foldAll st.outputs.length 0 bs st.outputs with
+  | error why => rw [hf] at hc; cases hc
+  | ok p =>
+    obtain ⟨b2, o2⟩ := p
+    rw [hf] at hc
+    simp only [] at hc
+    split at hc
+    · cases hc; exact ⟨o2, rfl⟩
+    · cases hc
+
+/-- the state after `n` iterations from the elaborated state -/
+theorem fold_reachable (asts : List (List AStmt)) (bs : List Block) (st : CState)
+    (h : compileBlocks 0 {} asts = .ok (bs, st)) (n : Nat) :
+    ∃ b1 o1, foldAll n 0 bs st.outputs = .ok (b1, o1) ∧ FoldInv n b1 o1 ∧ RefCount n b1 o1 ∧
+      (∀ {β : Type} (fi : SVS → Option Quantity → β) (fs : SVS → Nat → β) (p : β → Bool),
+        (b1.flatten.flatMap (Tree.collect fi fs)).countP p = (bs.flatten.flatMap (Tree.collect fi fs)).countP p) ∧
+      DescendsH bs b1 := by
+  obtain ⟨b1, o1, hf, h1, h2, h3, h4⟩ :=
+    foldAll_inv2 n 0 bs st.outputs (foldInv_init asts bs st h) (refCount_init asts bs st h)
+  rw [Nat.zero_add] at h1 h2
+  exact ⟨b1, o1, hf, h1, h2, h3, h4 bs (DescendsH.refl bs)⟩
+
+
+
+-- ---------------------------------------------------------------- structural validity (`C03.ValidS`) on the flattened blocks
+theorem validBlockS_mono : ∀ (b : Block) (prev prev' : List Tree), (∀ x ∈ prev, x ∈ prev') →
+    C03.ValidBlockS prev b → C03.ValidBlockS prev' b
+  | [], _, _, _, _ => trivial
+  | t :: ts, prev, prev', hsub, h => by
+    refine ⟨fun s hs => hsub s (h.1 s hs), validBlockS_mono ts _ _ ?_ h.2⟩
+    intro x hx
+    cases ht : t.isSub with
+    | false => simp only [ht, Bool.false_eq_true, if_false] at hx ⊢; exact hsub x hx
+    | true =>
+      simp only [ht, if_true, List.mem_cons] at hx ⊢
+      exact hx.imp id (hsub x)
+
+theorem validBlockS_append : ∀ (b c : Block) (prev : List Tree),
+    C03.ValidBlockS prev (b ++ c) ↔ (C03.ValidBlockS prev b ∧ C03.ValidBlockS ((b.filter Tree.isSub).reverse ++ prev) c)
+  | [], c, prev => by simp [C03.ValidBlockS]
+  | t :: b, c, prev => by
+    simp only [List.cons_append, C03.ValidBlockS, validBlockS_append b c, and_assoc]
+    cases ht : t.isSub <;> simp [ht]
+
+theorem validS_of_flatten : ∀ (bs : List Block) (prev : List Tree), C03.ValidBlockS prev bs.flatten → C03.ValidS prev bs
+  | [], _, _ => trivial
+  | b :: bs, prev, h => by
+    rw [List.flatten_cons, validBlockS_append] at h
+    refine ⟨h.1, validS_of_flatten bs _ (validBlockS_mono _ _ _ ?_ h.2)⟩
+    intro x hx
+    simp only [List.mem_append, List.mem_reverse] at hx ⊢
+    exact hx.symm
+
+theorem validBlockS_of_pos : ∀ (b : Block) (prev : List Tree),
+    (∀ (p : Nat) (T : Tree), b[p]? = some T → ∀ s ∈ T.refTargets,
+      s ∈ prev ∨ ∃ k, k < p ∧ b[k]? = some s ∧ s.isSub = true) → C03.ValidBlockS prev b
+  | [], _, _ => trivial
+  | t :: ts, prev, h => by
+    refine ⟨?_, validBlockS_of_pos ts _ ?_⟩
+    · intro s hs
+      rcases h 0 t rfl s hs with h' | ⟨k, hk, _⟩
+      · exact h'
+      · omega
+    · intro p T hp s hs
+      rcases h (p + 1) T (by simpa using hp) s hs with h' | ⟨k, hk, hks, hsub⟩
+      · left
+        cases t.isSub <;> simp [h']
+      · cases k with
+        | zero =>
+          simp only [List.getElem?_cons_zero, Option.some.injEq] at hks
+          subst hks
+          left; simp [hsub]
+        | succ k => exact Or.inr ⟨k, by omega, by simpa using hks, hsub⟩
+
+/-- a recipe whose embedded copies are earlier roots is structurally valid in the sense of `C03.ValidS` -/
+theorem validS_of_scoped (bs : List Block) (h : Scoped bs.flatten) : C03.ValidS [] bs := by
+  apply validS_of_flatten
+  apply validBlockS_of_pos
+  intro p T hp s hs
+  obtain ⟨i, a, hn⟩ := Tree.refTargets_refNodes T s hs
+  exact Or.inr (h p T hp s i a hn)
+
 
 end RG
